@@ -371,6 +371,17 @@ def unit_bounded_files(tier=None, seed=0):
             cx, cy = qm.get_coords(which="px")[0]
             if not np.isclose(qd[int(cy), int(cx)], c0.fit_properties["params_fitted"]["E"].value):
                 problems.append({"map": mf, "what": "map value does not follow a refit"})
+            # re-rate the (unchanged) fit with other rating settings: the same map object shows the current rating
+            r1 = c0.rate_quality()
+            with warnings.catch_warnings():
+                warnings.simplefilter("ignore")
+                m1 = qm.get_qmap("fit: rating", qmap_only=True)[int(cy), int(cx)]
+                r2 = c0.rate_quality(regressor="Decision Tree")
+                m2 = qm.get_qmap("fit: rating", qmap_only=True)[int(cy), int(cx)]
+            ne += 2
+            if not (np.isclose(m1, r1) and np.isclose(m2, r2)):
+                problems.append({"map": mf, "what": f"rating map shows {m1} / {m2} for ratings {r1} / {r2} "
+                                                    "(second: re-rated with another regressor, same fit)"})
             if problems:
                 break
     res = UnitResult(unit="bounded.recorded_files")
